@@ -80,7 +80,7 @@ MBP_CLASSES = ['Toric2DCode', 'Planar2DCode', 'RotatedPlanar2DCode', 'Toric3DCod
 SIZES_2D = ['3x3', '3x3,5x5']
 SIZES_3D = ['2x3x4,3x3x3']
 BIASES = ['X', 'Y', 'Z']
-ETAS = ['0.5', '10', 'inf', '0.5,10', '1,3,inf']
+ETAS = ['0.5', '10', 'inf', '0.5,10', '1,3,inf', '2,2.5,30']      # the last: ratios that are close together
 PROBS = ['0.1', '0.05,0.1,0.2', '0.1:0.3:0.1']
 DEFORMATIONS = [None, 'XZZX']
 METHODS = ['direct', 'splitting']
@@ -126,6 +126,10 @@ QUICK_TRIPLES = [
     ('Toric2DCode', '3x3,5x5', 'UnionFindDecoder'),
     ('Toric3DCode', '2x3x4,3x3x3', 'SweepMatchDecoder'),
     ('Toric3DCode', '2x3x4,3x3x3', 'BeliefPropagationOSDDecoder'),
+    # size strings with fewer components than the lattice dimension: the missing lengths default to L_x,
+    # as in the code constructors (3x5 on a 3-D class is 3x5x3, 4 is 4x4x4 / 4x4)
+    ('Toric3DCode', '3x5,4', 'BeliefPropagationOSDDecoder'),
+    ('Toric2DCode', '4,3x5', 'MatchingDecoder'),
 ]
 
 
@@ -158,6 +162,7 @@ def _thorough_triples():
         for s in SIZES_3D:
             for dec in _decoders_for(cls, table):
                 out.append((cls, s, dec))
+    out += [t for t in QUICK_TRIPLES if t[1] in ('3x5,4', '4,3x5')]
     return out
 
 
@@ -278,7 +283,11 @@ def _one_invocation(case, eta, prob, label, dim):
 
     cls, sizes, dec = case['cls'], case['sizes'], case['decoder']
     method, deformation, bias = case['method'], case['deformation'], case['bias']
-    size_list = [tuple(int(x) for x in s.split('x'))[:dim] for s in sizes.split(',')]
+    size_list = []
+    for s in sizes.split(','):
+        comps = [int(x) for x in s.split('x')][:dim]
+        comps += [comps[0]] * (dim - len(comps))        # constructor convention: missing lengths = L_x
+        size_list.append(tuple(comps))
     eta_list = [e.strip() for e in eta.split(',')]
     exp_dirs = [_expected_direction(bias, e) for e in eta_list]
     rates, rate_max = _expected_rates(prob)
